@@ -120,6 +120,10 @@ impl ParquetTable {
             max_i64: Option<i64>,
             null_count: Option<u64>,
             has_int_stats: bool,
+            /// Some chunk that may hold non-null values contributed no
+            /// integer (min, max): the folded bounds do not cover it, so
+            /// they are not bounds for the column at all.
+            bounds_poisoned: bool,
         }
 
         let mut total_rows: usize = 0;
@@ -152,11 +156,14 @@ impl ParquetTable {
                         max_i64: None,
                         null_count: Some(0),
                         has_int_stats: false,
+                        bounds_poisoned: false,
                     });
 
                     let Some(stats) = col_chunk.statistics() else {
-                        // A chunk without stats poisons null_count accuracy.
+                        // A chunk without stats poisons null_count accuracy
+                        // AND the min/max bounds: its values are unseen.
                         acc.null_count = None;
+                        acc.bounds_poisoned = true;
                         continue;
                     };
 
@@ -181,6 +188,11 @@ impl ParquetTable {
                         acc.has_int_stats = true;
                         acc.min_i64 = Some(acc.min_i64.map_or(min, |m| m.min(min)));
                         acc.max_i64 = Some(acc.max_i64.map_or(max, |m| m.max(max)));
+                    } else if stats.null_count_opt() != Some(col_chunk.num_values().max(0) as u64) {
+                        // No (min, max) for a chunk that is not provably
+                        // all-NULL: consumers (PackedJoinKeys/PackedGroupKeys)
+                        // treat the bounds as exact, so drop them for good.
+                        acc.bounds_poisoned = true;
                     }
                 }
             }
@@ -249,7 +261,11 @@ impl ParquetTable {
 
         let column_stats = cols
             .into_iter()
-            .map(|(name, acc)| {
+            .map(|(name, mut acc)| {
+                if acc.bounds_poisoned {
+                    acc.min_i64 = None;
+                    acc.max_i64 = None;
+                }
                 let non_null = acc
                     .null_count
                     .map(|n| (total_rows as u64).saturating_sub(n))
